@@ -71,6 +71,36 @@ Theorem C16_get_deleted_order_independent : forall g mapping to_del to_del' r r'
 Proof. exact get_deleted_order_independent. Qed.
 Print Assumptions C16_get_deleted_order_independent.
 
+(* ---------- BaseReactor.__init__ (self._to_delete) and the "unless masked" clause ---------- *)
+Theorem C16_to_delete_of_spec : forall pattern replacement delete_atoms x,
+  In x (to_delete_of pattern replacement delete_atoms) <->
+  delete_atoms = true /\ In (x, false) pattern /\ ~ In x replacement.
+Proof. exact to_delete_of_spec. Qed.
+Print Assumptions C16_to_delete_of_spec.
+
+(* the image of a masked pattern atom is never removed, whatever the replacement says *)
+Theorem C16_masked_never_deleted : forall g pattern replacement delete_atoms mapping p v r,
+  sym_graph g = true ->
+  NoDup (keys pattern) -> In (p, true) pattern ->
+  (forall q, In q (keys pattern) -> exists w, zget mapping q = Some w /\ In w (keys g)) ->
+  (forall q1 q2 w, In q1 (keys pattern) -> In q2 (keys pattern) -> zget mapping q1 = Some w -> zget mapping q2 = Some w -> q1 = q2) ->
+  zget mapping p = Some v ->
+  get_deleted g mapping (to_delete_of pattern replacement delete_atoms) = Ok r ->
+  ~ In v r.
+Proof. exact masked_never_deleted. Qed.
+Print Assumptions C16_masked_never_deleted.
+
+(* non-vacuity: CCOC, [C;M:1][O:2][C:3] >> [A:2] *)
+Theorem C16_masked_example :
+  sym_graph mask_g = true /\ NoDup (keys mask_pattern) /\ In (1, true) mask_pattern /\
+  (forall q, In q (keys mask_pattern) -> exists w, zget mask_mapping q = Some w /\ In w (keys mask_g)) /\
+  (forall q1 q2 w, In q1 (keys mask_pattern) -> In q2 (keys mask_pattern) ->
+                   zget mask_mapping q1 = Some w -> zget mask_mapping q2 = Some w -> q1 = q2) /\
+  to_delete_of mask_pattern [2] true = [3] /\
+  sorted_res (get_deleted mask_g mask_mapping (to_delete_of mask_pattern [2] true)) = Ok [1; 2].
+Proof. exact masked_example. Qed.
+Print Assumptions C16_masked_example.
+
 (* non-vacuity: the two inputs on which the code before the fix was wrong (bridged ring; two adjacent deleted atoms) *)
 Theorem C16_get_deleted_on_witnesses :
   sym_graph wit_g = true /\
@@ -176,6 +206,20 @@ Theorem C16_identity_template : forall g mapping tpl new mp',
 Proof. exact identity_template. Qed.
 Print Assumptions C16_identity_template.
 
+(* non-vacuity: ethyl acetate, [C:1]=[O:2] >> [A:1]=[A:2], match {1:2, 2:3} satisfies every hypothesis of identity_template *)
+Theorem C16_identity_example :
+  wf_template id_tpl = true /\
+  (forall n1 n2 m, In n1 (keys (t_atoms id_tpl)) -> In n2 (keys (t_atoms id_tpl)) ->
+                   truthy_get id_mapping n1 = Some m -> truthy_get id_mapping n2 = Some m -> n1 = n2) /\
+  (forall n ra, In (n, ra) (t_atoms id_tpl) ->
+                exists m sa, truthy_get id_mapping n = Some m /\ atom_of ex_mol m = Some sa /\ same_request ra sa) /\
+  (forall n0 m0 x y, In n0 (keys (t_atoms id_tpl)) -> In m0 (keys (t_atoms id_tpl)) ->
+                     truthy_get id_mapping n0 = Some x -> truthy_get id_mapping m0 = Some y ->
+                     option_map b_ord (get2 (t_bonds id_tpl) n0 m0) = option_map b_ord (bond_of ex_mol x y)) /\
+  exists new mp', patcher ex_mol id_mapping id_tpl [] = Ok (new, mp') /\ ids new = [2; 3; 1; 4; 5; 6].
+Proof. exact identity_example. Qed.
+Print Assumptions C16_identity_example.
+
 (* ---------- _patcher as it is called: to_delete = _get_deleted(structure, mapping) ---------- *)
 Theorem C16_template_application_atoms : forall g mapping to_del tpl new mp',
   patcher_with get_deleted g mapping to_del tpl = Ok (new, mp') ->
@@ -201,6 +245,34 @@ Theorem C16_template_application_frame : forall g mapping to_del tpl new mp',
 Proof. exact template_application_frame. Qed.
 Print Assumptions C16_template_application_frame.
 
+(* one product per match, structural part: on a real match of a well-formed template _patcher does not raise *)
+Theorem C16_patcher_total : forall g mapping tpl del,
+  wf_mol g = true -> (forall x, In x (ids g) -> 0 < x) -> ids g <> [] ->
+  wf_template tpl = true ->
+  (forall n chg rad, In (n, RAny chg rad) (t_atoms tpl) -> exists m, truthy_get mapping n = Some m) ->
+  (forall n m, In n (keys (t_atoms tpl)) -> truthy_get mapping n = Some m -> In m (ids g)) ->
+  exists new mp', patcher g mapping tpl del = Ok (new, mp').
+Proof. exact patcher_total. Qed.
+Print Assumptions C16_patcher_total.
+
+Theorem C16_template_application_total : forall g mapping to_del tpl,
+  wf_mol g = true -> (forall x, In x (ids g) -> 0 < x) -> ids g <> [] ->
+  wf_template tpl = true ->
+  (forall p, In p to_del -> exists v, zget mapping p = Some v /\ In v (ids g)) ->
+  (forall n chg rad, In (n, RAny chg rad) (t_atoms tpl) -> exists m, truthy_get mapping n = Some m) ->
+  (forall n m, In n (keys (t_atoms tpl)) -> truthy_get mapping n = Some m -> In m (ids g)) ->
+  exists new mp', patcher_with get_deleted g mapping to_del tpl = Ok (new, mp').
+Proof. exact template_application_total. Qed.
+Print Assumptions C16_template_application_total.
+
+Theorem C16_total_example :
+  ids ex_mol <> [] /\
+  (forall p, In p [4] -> exists v, zget ex_mapping p = Some v /\ In v (ids ex_mol)) /\
+  (forall n chg rad, In (n, RAny chg rad) (t_atoms ex_tpl) -> exists m, truthy_get ex_mapping n = Some m) /\
+  (forall n m, In n (keys (t_atoms ex_tpl)) -> truthy_get ex_mapping n = Some m -> In m (ids ex_mol)).
+Proof. exact total_example. Qed.
+Print Assumptions C16_total_example.
+
 (* non-vacuity: ethyl acetate, [C:1](=[O:2])[O:3][C:4] >> [A:1](=[A:2])[A-:3] + new [Na+:5]; the ethyl group goes *)
 Theorem C16_patcher_example :
   wf_mol ex_mol = true /\ wf_template ex_tpl = true /\ (forall x, In x (ids ex_mol) -> 0 < x) /\
@@ -224,3 +296,9 @@ Theorem C16_overlap_fix_identity : forall structures,
   all_disjoint structures -> fix_mapping_overlap structures = Ok structures.
 Proof. exact overlap_fix_identity. Qed.
 Print Assumptions C16_overlap_fix_identity.
+
+Theorem C16_overlap_example :
+  Forall (@NoDup Z) [[1; 2; 3]; [1; 2]; [2; 5]] /\
+  fix_mapping_overlap [[1; 2; 3]; [1; 2]; [2; 5]] = Ok [[1; 2; 3]; [4; 5]; [6; 7]].
+Proof. exact overlap_example. Qed.
+Print Assumptions C16_overlap_example.
